@@ -55,8 +55,9 @@ theorem list_collect_ok {s : Store} {h : Heap} (hr : Represents s h) {i n : Nat}
     subst ht; rfl
   · simp [htn] at ht
 
-/-- **wf_implies_accessWF**: a heap that represents a well-formed store is well formed for the accessors -/
-theorem wf_implies_accessWF {s : Store} {h : Heap} (hwf : WF s) (hr : Represents s h) : h.WF := by
+/-- what `Heap.WF` needs of the store: complete headers, concatenations that link downwards -/
+theorem accessWF_of_headers {s : Store} {h : Heap} (hheaders : ∀ i, i < s.cells.size → headerOK s.cells i = true)
+    (hcat : ∀ i l r, s.cells[i]? = some (Cell.concatenation l r) → l < i ∧ r < i) (hr : Represents s h) : h.WF := by
   refine ⟨hr.inside, hr.vec, ?_⟩
   intro i hi
   rw [hr.cursor] at hi
@@ -64,7 +65,7 @@ theorem wf_implies_accessWF {s : Store} {h : Heap} (hwf : WF s) (hr : Represents
   rw [hr.dstart, hr.cells i hi]
   obtain ⟨c, hc⟩ : ∃ c, s.cells[i]? = some c := ⟨s.cells[i], by simp [hi]⟩
   rw [hc]
-  have hhd := hwf.headers i hi
+  have hhd := hheaders i hi
   simp only [headerOK, hc] at hhd
   cases c <;> try rfl
   · -- SymbolList
@@ -121,10 +122,17 @@ theorem wf_implies_accessWF {s : Store} {h : Heap} (hwf : WF s) (hr : Represents
     · simp at hsh
   · -- Concatenation
     rename_i l r
-    have hsh : shape s.cells i = some ⟨.concatenation 0 0, [], [l, r]⟩ := shape_of_solo hc rfl
-    have hn := hwf.nodes i hi
-    simp only [nodeOK, hsh, List.all_eq_true, Bool.and_eq_true, decide_eq_true_eq] at hn
     simp only [cellOK, Bool.and_eq_true, decide_eq_true_eq]
-    exact ⟨(hn l (by simp)).1, (hn r (by simp)).1⟩
+    exact hcat i l r hc
+
+/-- **wf_implies_accessWF**: a heap that represents a well-formed store is well formed for the accessors -/
+theorem wf_implies_accessWF {s : Store} {h : Heap} (hwf : WF s) (hr : Represents s h) : h.WF := by
+  refine accessWF_of_headers hwf.headers ?_ hr
+  intro i l r hc
+  have hi : i < s.cells.size := cell_lt hc
+  have hsh : shape s.cells i = some ⟨.concatenation 0 0, [], [l, r]⟩ := shape_of_solo hc rfl
+  have hn := hwf.nodes i hi
+  simp only [nodeOK, hsh, List.all_eq_true, Bool.and_eq_true, decide_eq_true_eq] at hn
+  exact ⟨(hn l (by simp)).1, (hn r (by simp)).1⟩
 
 end Garnish.BasicOpt
